@@ -300,7 +300,7 @@ def obs_to_gallina(ob, exc, nwarn):
             G.attrs(ob["net"]) + " " + G.gZ(ob["uid"]) + " " + G.outcome(exc) + " " + G.gnat(nwarn) + ")")
 
 
-def run_history(ops_or_gen, length=None, rng=None, style=None, malformed=False):
+def run_history(ops_or_gen, length=None, rng=None, style=None, malformed=False, freeze_at=None):
     import xgi
     H = xgi.DiHypergraph()
     if ops_or_gen is None:
@@ -308,6 +308,8 @@ def run_history(ops_or_gen, length=None, rng=None, style=None, malformed=False):
     rec = {"ops": [], "extras": [], "obs": [], "excs": [], "warns": [], "unsupported": None}
     n = length if ops_or_gen is None else len(ops_or_gen)
     for i in range(n):
+        if freeze_at is not None and i == freeze_at:
+            H.freeze()
         op = gen_op(rng, H, nodes, eids, malformed) if ops_or_gen is None else ops_or_gen[i]
         extra, exc, nwarn = apply_op(H, op)
         ob = observe(H)
